@@ -52,10 +52,26 @@ func c06Specs(tier string) []spaceSpec {
 
 var nlMap = map[byte]byte{'b': '\n'}
 
+// percent variant: terminal a is built as '%' and the file is called "100%f.txt": what is reported is text, never a
+// format string
+var percentMap = map[byte]byte{'a': '%', 'b': '\n'}
+
+const percentFile = "100%f.txt"
+
+// c06Percent selects the percent variant (set around a pass of c06Run and by the replay).
+var c06Percent = false
+
+func c06Letters() map[byte]byte {
+	if c06Percent {
+		return percentMap
+	}
+	return nlMap
+}
+
 func mapInput(w []byte) []byte {
 	out := make([]byte, len(w))
 	for i, c := range w {
-		if m, ok := nlMap[c]; ok {
+		if m, ok := c06Letters()[c]; ok {
 			c = m
 		}
 		out[i] = c
@@ -69,6 +85,7 @@ type attempt struct {
 }
 
 var c06Re = regexp.MustCompile(`(?s)^failed to parse the input: (.*) at f:(\d+):(\d+)$`)
+var c06RePercent = regexp.MustCompile(`(?s)^failed to parse the input: (.*) at ` + regexp.QuoteMeta(percentFile) + `:(\d+):(\d+)$`)
 
 func lineCol(w []byte, p int) (int, int) {
 	line, last := 1, -1
@@ -93,7 +110,7 @@ func c06Grammar(res *explore.Result, g *gram.Grammar, inputs [][]byte, verbose b
 		gv := withNamed(g, named)
 		gv.NamedSeq = variant == 2 // third variant: the sequence-family combinators carry a Name as well
 		gs := gv.String()
-		b := impl.Build(gv, impl.Options{Letters: nlMap})
+		b := impl.Build(gv, impl.Options{Letters: c06Letters()})
 		b.Mon.BudgetCalls, b.Mon.BudgetRes = budgetCalls, budgetResults
 		failed := map[attempt]bool{} // tried and produced no result
 		b.Mon.OnReturn = func(e *gram.Expr, pos parsley.Pos, node parsley.Node, _ data.IntSet, _ parsley.Error) {
@@ -103,7 +120,7 @@ func c06Grammar(res *explore.Result, g *gram.Grammar, inputs [][]byte, verbose b
 			switch e.K {
 			case gram.T:
 				ch := e.Ch
-				if m, ok := nlMap[ch]; ok {
+				if m, ok := c06Letters()[ch]; ok {
 					ch = m
 				}
 				failed[attempt{strconv.Quote(string(rune(ch))), int(pos) - impl.Base}] = true
@@ -138,7 +155,7 @@ func c06Grammar(res *explore.Result, g *gram.Grammar, inputs [][]byte, verbose b
 			}
 			w := mapInput(w0)
 			n := len(w)
-			c := Case{Placement: impl.Placement, Prior: b.MemoBefore, Grammar: gs, Input: string(w0), History: append([]string{}, history...)}
+			c := Case{Placement: impl.Placement, Prior: b.MemoBefore, Grammar: gs, Input: string(w0), History: append([]string{}, history...), Percent: c06Percent}
 			history = append(history, string(w0))
 			for k := range failed {
 				delete(failed, k)
@@ -203,7 +220,11 @@ func c06Grammar(res *explore.Result, g *gram.Grammar, inputs [][]byte, verbose b
 					continue
 				}
 			}
-			m := c06Re.FindStringSubmatch(text)
+			re := c06Re
+			if c06Percent {
+				re = c06RePercent
+			}
+			m := re.FindStringSubmatch(text)
 			if m == nil {
 				viol("error-form", fmt.Sprintf("error text %q is not 'failed to parse the input: <expectation> at f:<line>:<col>'", text))
 				continue
@@ -333,6 +354,26 @@ func c06Run(env *explore.Env) *explore.Result {
 	eachGrammarPlaced(env, res, c06Specs(env.Tier), c04Seeds, func(g *gram.Grammar, inputs [][]byte, _ bool) {
 		c06Grammar(res, g, inputs, false)
 	})
+	// the seed corpus and the grammars of at most 4 nodes again with a '%' as terminal a and in the file name
+	c06Percent, impl.FileName = true, percentFile
+	defer func() { c06Percent, impl.FileName = false, "f" }()
+	var small []spaceSpec
+	for _, s := range c06Specs(env.Tier) {
+		if s.tmpl == nil && s.sp.FixedShared == nil && s.sp.Min <= 4 && s.sp.NNT <= 1 {
+			c := *s.sp
+			if c.Max > 4 {
+				c.Max = 4
+			}
+			s2 := s
+			s2.sp = &c
+			s2.noSymmetryCut = true // a and b are not interchangeable here
+			small = append(small, s2)
+		}
+	}
+	eachGrammar(env, res, small, c04Seeds, func(g *gram.Grammar, inputs [][]byte, _ bool) {
+		res.Add("grammars_in_the_percent_variant", 1)
+		c06Grammar(res, g, inputs, false)
+	})
 	return res
 }
 
@@ -345,6 +386,10 @@ func c06Replay(raw json.RawMessage) *explore.Result {
 	}
 	res.Notes = append(res.Notes, "case: "+c.String()+" (terminal b is built as a line feed)")
 	g.Named, g.NamedSeq = false, false
+	if c.Percent {
+		c06Percent, impl.FileName = true, percentFile
+		defer func() { c06Percent, impl.FileName = false, "f" }()
+	}
 	var inputs [][]byte
 	for _, h := range c.History {
 		inputs = append(inputs, []byte(h))
